@@ -330,6 +330,22 @@ def island_vs_pixels(finder, sources, innerclip, outerclip):
             alt = np.nanmin(box) if peak > 0 else np.nanmax(box)
             if not np.isclose(isl.peak_flux, alt, rtol=1e-6):
                 return [("island-peak", "island %s: peak_flux %r but the brightest island pixel is %r" % (isl.island, isl.peak_flux, peak))]
+        # the island's position is the sky position of its peak pixel
+        if np.isfinite(isl.peak_flux) and np.isfinite(isl.ra) and np.isfinite(isl.dec):
+            where = np.argwhere(box == isl.peak_flux)
+            if len(where):
+                ok = False
+                for (ix, iy) in where:
+                    ra, dec = gd.wcshelper.pix2sky([ix + xmin, iy + ymin])
+                    if ra < 0:
+                        ra += 360
+                    dra = abs(ra - isl.ra)
+                    if min(dra, 360 - dra) < 1e-7 and abs(dec - isl.dec) < 1e-7:
+                        ok = True
+                        break
+                if not ok:
+                    return [("island-position", "island %s: (ra, dec) = (%.7f, %.7f) is not the sky position of its peak pixel"
+                             % (isl.island, isl.ra, isl.dec))]
     return []
 
 
